@@ -516,7 +516,7 @@ func alphabet(sizes []int, mixes, orders []int) []bufSpec {
 func run(c *lib.Ctx) {
 	full := alphabet([]int{13, 25, 1, 12, 24, 26, 37, 60, 0}, []int{0, 1, 2, 3}, lib.Pick(c, []int{0, 2}, []int{0, 1, 2}))
 	tri := alphabet(lib.Pick(c, []int{1, 13, 25, 37}, []int{13, 25, 1, 26, 37, 0}), []int{1, 2, 3}, []int{0})
-	quad := alphabet([]int{13, 26}, []int{2, 3}, []int{1})
+	quad := alphabet([]int{13, 26}, lib.Pick(c, []int{3}, []int{2, 3}), []int{1})
 	// four buffers of 64 entries: the summed size reaches 256, where goal()
 	// switches from 24 to 48 slots per chunk (pass-through threshold 24)
 	big := alphabet([]int{64}, []int{2, 3}, []int{2})
@@ -567,14 +567,14 @@ func run(c *lib.Ctx) {
 			c.Sample(listCase{2, []bufSpec{full[i], full[(i*31+7)%len(full)]}}.String())
 		}
 	})
-	// triples (flat and nested) x 2 presence lines
+	// triples (flat and nested) x 1 (quick) / 2 (thorough) presence lines
 	n := len(tri)
 	c.Par(n*n, func(ij int) {
 		fl := newFlight()
 		defer fl.done()
 		var st stats
 		i, j := ij/n, ij%n
-		for p0 := 0; p0 < 3; p0 += 2 {
+		for p0 := lib.Pick(c, 2, 0); p0 < 3; p0 += 2 {
 			for k := range tri {
 				do(listCase{p0, []bufSpec{tri[i], tri[j], tri[k]}}, &st, true, fl)
 			}
